@@ -226,6 +226,85 @@ if tostring(tb):find("luaexec.py") then return "trace-mentions-host" end
 return "plain" """, ["host:debug"], "", "walk")
 
 
+# ---- references carried by error values -----------------------------------------------------
+# A Python helper that raises hands the exception OBJECT to the module's pcall; attributes of an
+# exception without a leading underscore (AttributeError.obj, .args, .name ...) pass the attribute
+# filter.  The attack calls every function it can reach (mw.*, title objects, frame, environment
+# helpers) with a few argument vectors, keeps the error values and looks for the context behind them.
+atk("error_value_references", """
+local cur = mw.title.getCurrentTitle()
+local cands = { {}, {cur.fullText}, {cur.text}, {cur}, {""}, {0}, {cur.fullText, 0}, {frame}, {{}} }
+local seen, found = {}, nil
+local function is_ctx(o)
+  if type(o) ~= "userdata" then return false end
+  for _, a in ipairs({"db_conn", "add_page", "expand", "lua", "db_path"}) do
+    local ok, v = pcall(function() return o[a] end)
+    if ok and v ~= nil then return true end
+  end
+  return false
+end
+local function inspect(e, depth)
+  if found or type(e) ~= "userdata" or depth > 3 then return end
+  if is_ctx(e) then found = e return end
+  for _, a in ipairs({"obj", "args", "name", "value", "object", "filename", "__cause__", "__context__", "reason", "start", "end", "doc"}) do
+    local ok, v = pcall(function() return e[a] end)
+    if ok and v ~= nil then
+      if is_ctx(v) then found = v return end
+      if type(v) == "userdata" then
+        inspect(v, depth + 1)
+        for i = 0, 3 do local ok2, w = pcall(function() return v[i] end) if ok2 and w ~= nil then inspect(w, depth + 1) end end
+      end
+    end
+  end
+end
+local function fuzz(f)
+  for _, args in ipairs(cands) do
+    local ok, e = pcall(f, unpack(args))
+    if not ok then inspect(e, 0) end
+    if found then return end
+  end
+end
+local function walk(t, depth)
+  if found or depth > 3 or seen[t] then return end
+  seen[t] = true
+  for k, v in pairs(t) do
+    if type(v) == "function" then
+      if type(k) ~= "string" or not (k:find("exit") or k:find("reset") or k:find("set_") or k:find("clear") or k == "error" or k == "assert" or k == "pcall" or k == "xpcall") then fuzz(v) end
+    elseif type(v) == "table" then walk(v, depth + 1)
+    elseif type(v) == "userdata" then pcall(function() fuzz(v) end) end
+    if found then return end
+  end
+end
+-- methods and computed properties of title objects live behind metatables: name them
+for _, t in ipairs({cur, mw.title.new(cur.fullText), mw.title.new("Template:T"), mw.title.makeTitle(0, cur.text)}) do
+  if type(t) == "table" then
+    for _, m in ipairs({"getContent", "fileExists", "isSubpageOf", "inNamespace", "inNamespaces", "hasSubjectNamespace",
+                        "subPageTitle", "partialUrl", "fullUrl", "localUrl", "canonicalUrl", "talkPageTitle", "subjectPageTitle"}) do
+      local ok, f = pcall(function() return t[m] end)
+      if ok and type(f) == "function" then
+        for _, args in ipairs(cands) do
+          local ok2, e = pcall(f, t, unpack(args))
+          if not ok2 then inspect(e, 0) end
+        end
+      end
+    end
+    for _, prop in ipairs({"exists", "isRedirect", "contentModel", "redirectTarget", "file", "id", "protectionLevels", "cascadingProtection", "basePageTitle", "rootPageTitle"}) do
+      local ok, e = pcall(function() return t[prop] end)
+      if not ok then inspect(e, 0) end
+    end
+  end
+  if found then break end
+end
+pcall(walk, cur, 0)
+pcall(walk, frame, 0)
+pcall(walk, mw, 0)
+if found then
+  local ok, r = pcall(function() return tostring(found.db_path) end)
+  return W("ctx-from-error-value:" .. tostring(ok and r))
+end
+return "no-reference-in-error-values" """, ["py:Wtp"], "", "errors")
+
+
 def module_source(a) -> str:
     return "local p = {}\nfunction p.main(frame)\n" + PRELUDE + a["body"] + "\nend\nreturn p\n"
 
